@@ -267,6 +267,13 @@ def repack(path, mode):
                     m.size = len(data)
                     changed = True
                 t.addfile(m, io.BytesIO(data) if data is not None else None)
+            if mode == "corrupt" and not changed:        # an artifact without regular files: add one
+                data = b"corrupted\n"
+                m = tarfile.TarInfo("content/zz-corrupted.txt")
+                m.size = len(data)
+                m.mode = 0o644
+                t.addfile(m, io.BytesIO(data))
+                changed = True
     os.replace(tmp, path)
     return changed
 
@@ -1231,6 +1238,8 @@ def run(ctx):
     if ctx.replay:
         c = json.load(open(ctx.replay))
         case = c.get("case", c)
+        if "broken" in c:               # replay file of a broken correspondence
+            case = next(b["detail"] for b in c["broken"] if isinstance(b.get("detail"), dict) and "history" in b["detail"])
         hj = case.get("history", case)
         h = history_from_json(0, hj)
         process(ctx, [h])
@@ -1242,7 +1251,7 @@ def run(ctx):
     for name, c in load_corpus():
         hs.append(history_from_json(len(hs), c))
         ctx.count("corpus")
-    n_hist = ctx.n(20, 220)          # about 30 % of the generated projects are rejected by the parser (cheaply)
+    n_hist = ctx.n(14, 220)          # about 30 % of the generated projects are rejected by the parser (cheaply)
     if os.environ.get("C07_HISTORIES") is not None:      # development aid: C07_HISTORIES=0 runs the corpus only
         n_hist = int(os.environ["C07_HISTORIES"])
     for i in range(n_hist):
